@@ -111,6 +111,14 @@ pub fn utxo_id(rng: &mut StdRng) -> UtxoId {
     UtxoId::new(b32(rng).into(), idx16(rng))
 }
 
+/// Which alphabet elements carry identical bytes in several roles.
+#[derive(Clone, Copy, Debug, PartialEq, Eq)]
+pub enum Sharing {
+    None,
+    Half,
+    All,
+}
+
 /// Small value alphabets; element 0 of every alphabet is the type's default
 /// value (which DA compression maps to the reserved default key).
 #[derive(Clone, Debug)]
@@ -126,6 +134,19 @@ pub struct Alphabet {
 
 impl Alphabet {
     pub fn new(rng: &mut StdRng, n: usize, fresh_pct: u32) -> Self {
+        Self::with_sharing(rng, n, fresh_pct, Sharing::None)
+    }
+
+    /// Like [`Alphabet::new`], but alphabet element `i` may carry the *same bytes* in
+    /// several roles: the same 32 bytes as address, asset id and contract id, and the
+    /// same non-empty byte string as script code and predicate code (values of
+    /// different registry keyspaces that collide byte-wise).
+    pub fn with_sharing(
+        rng: &mut StdRng,
+        n: usize,
+        fresh_pct: u32,
+        sharing: Sharing,
+    ) -> Self {
         let n = n.max(2);
         let mut a = Alphabet {
             addrs: vec![Address::default()],
@@ -135,14 +156,26 @@ impl Alphabet {
             predicates: vec![vec![]],
             fresh_pct,
         };
-        for _ in 1..n {
-            a.addrs.push(Address::new(b32(rng)));
-            a.assets.push(AssetId::new(b32(rng)));
-            a.contracts.push(ContractId::new(b32(rng)));
+        for i in 1..n {
+            let shared = match sharing {
+                Sharing::None => false,
+                Sharing::Half => i % 2 == 1,
+                Sharing::All => true,
+            };
+            let base = b32(rng);
+            a.addrs.push(Address::new(base));
+            a.assets.push(AssetId::new(if shared { base } else { b32(rng) }));
+            a.contracts
+                .push(ContractId::new(if shared { base } else { b32(rng) }));
             let l = rng.gen_range(1..40);
-            a.scripts.push((0..l).map(|_| rng.r#gen::<u8>()).collect());
-            let l = rng.gen_range(1..40);
-            a.predicates.push((0..l).map(|_| rng.r#gen::<u8>()).collect());
+            let code: Vec<u8> = (0..l).map(|_| rng.r#gen::<u8>()).collect();
+            a.scripts.push(code.clone());
+            if shared {
+                a.predicates.push(code);
+            } else {
+                let l = rng.gen_range(1..40);
+                a.predicates.push((0..l).map(|_| rng.r#gen::<u8>()).collect());
+            }
         }
         a
     }
